@@ -188,6 +188,41 @@ def check(ctx):
                    file=c.mod.path, line=fn.lineno)
         else:
             o.witness('exit-through-top')
+    # C08.11: the hop is in the history before the receive bookkeeping runs
+    o11 = Ob('C08.11', 'K2', 'a device that stores a part adds itself to the routing history before its receive bookkeeping (record, receive callbacks, a batcher taking the first '
+                             'members out of an input batch) runs: what happens at reception sees, and inherits, a history that already contains the device')
+    obs.append(o11)
+    from ..state import Analysis as _An11, State as _St11
+    for c11 in dv.device_classes(P, dv.SLOT_DEVICES):
+        if not P.has_method(c11, 'give_part') or (c11.name, 'give_part') in dv.EXEMPT_ENTRIES:
+            continue
+        g11 = ctx.graph(c11, 'give_part')
+
+        def hook11(an_, n, before, after, g11=g11):
+            st = after
+            for cl in calls_at(g11, n):
+                if call_attr(cl) == 'add_routing_history' and not ast.unparse(cl.func).startswith('super()'):
+                    st = st.with_flag('hist')
+            if n.kind == 'call_enter' and n.frame.func.name == '_on_received_new_part' and n.frame.parent is not None and n.frame.parent.func.name != '_on_received_new_part':
+                st = st.with_flag('received' if 'hist' in st.flags else 'RECEIVED-BEFORE-HISTORY')
+            return st
+        an11 = _An11(P, g11, ['_part', '_output', '_block_input', '_is_shut_down'])
+        an11.node_hooks.append(hook11)
+        s11 = _St11({'_part': 'N', '_output': 'N', '_block_input': 'F', '_is_shut_down': 'F'})
+        s11.locals[(g11.top.id, 'part')] = 'S'
+        res11 = ctx.explore(an11, [s11])
+        seen11 = False
+        for st in res11.exits():
+            o11.count()
+            if 'received' in st.flags:
+                seen11 = True
+                o11.witness(c11.name)
+            if 'RECEIVED-BEFORE-HISTORY' in st.flags:
+                fn11 = dv.entry_fn(P, c11, 'give_part')
+                o11.fail(P, f'{c11.name}.give_part', 'part.add_routing_history(self)', f'{c11.name} runs its receive bookkeeping before the part carries the device in its routing history: '
+                         'parts that are taken out of an input batch during reception (PartBatcher) never get the entry -- a gap in their history -- and receive callbacks see a history '
+                         'without the device', file=c11.mod.path, line=fn11.lineno, path=res11.path_lines(g11.exit, st))
+        o11.require(seen11 or any('RECEIVED-BEFORE-HISTORY' in st.flags for st in res11.exits()), f'{c11.name}.give_part: the receive bookkeeping was not reached on an accepting path')
     # C08.10: the entry a group output removes is its own: a downstream that accepts the part may be a GroupPath, which pushes itself on
     # the same stack, so after an accepted hand-over the top is no longer the path being left -- the path must be taken off before
     # the part is offered (and put back on refusal)
